@@ -539,7 +539,7 @@ let run_shapes = function
   | [w] ->
     let w = zs w in
     let zi = z_of_int in
-    let mems = [Mem (zi 0); Mem (zi 1)] and tmps = [Tmp (zi 0); Tmp (zi 1); Tmp (zi 2); Tmp (zi 11); Tmp (zi 12)] in
+    let mems = [Mem (zi 0); Mem (zi 1)] and tmps = [Tmp (zi 0); Tmp (zi 1); Tmp (zi 2); Tmp (zi 4); Tmp (zi 5); Tmp (zi 11); Tmp (zi 12)] in
     let imms = [Imm (zi 0); Imm (zi 1); Imm (Model.Z.sub (Model.Z.pow (zi 2) w) (zi 1)); Imm (zi 5); Imm (Model.Z.sub (Model.Z.pow (zi 2) w) (zi 3))] in
     let dsts = mems @ tmps and srcs = mems @ tmps @ imms in
     let out = Hashtbl.create 1024 in
@@ -560,7 +560,20 @@ let run_shapes = function
     Stdlib.String.concat ";" (List.sort compare (Hashtbl.fold (fun k () acc -> k :: acc) out []))
   | _ -> "ERR bad shapes line"
 
-let handlers : (Stdlib.String.t * (Stdlib.String.t list -> Stdlib.String.t)) list ref = ref [ ("cell", run_cell); ("bf", run_bf); ("inplace", run_inplace); ("ir", run_ir); ("bc", run_bc); ("parse", run_parse); ("bfbig", run_bfbig); ("formsnf", run_formsnf); ("shapes", run_shapes); ("cli", run_cli); ("bcwf", run_bcwf); ("bfx", run_bfx); ("expr", run_expr); ("svec", run_svec); ("tape", run_tape); ("bfcycle", run_bfcycle); ("irbig", run_irbig) ]
+
+(* bcmem|w|lo|hi|bc-text : final cells lo..hi of the bytecode model *)
+let run_bcmem = function
+  | [w; lo; hi; bc] ->
+    let p = parse_bc (toks_of bc) in
+    let e = { input = []; in_absent = true; in_fail_at = None; out_present = false; out_fail_at = None } in
+    (match bc_run (zs w) e false Z0 (nat_of_int 100000) p with
+     | Done s ->
+       let lo = int_of_string lo and hi = int_of_string hi in
+       Stdlib.String.concat "," (List.init (hi - lo + 1) (fun i -> sz (tget s.bc_tape (Model.Z.add s.bc_ptr (z_of_int (lo + i))))))
+     | _ -> "notdone")
+  | _ -> "ERR bad bcmem line"
+
+let handlers : (Stdlib.String.t * (Stdlib.String.t list -> Stdlib.String.t)) list ref = ref [ ("cell", run_cell); ("bf", run_bf); ("inplace", run_inplace); ("ir", run_ir); ("bc", run_bc); ("parse", run_parse); ("bfbig", run_bfbig); ("bcmem", run_bcmem); ("formsnf", run_formsnf); ("shapes", run_shapes); ("cli", run_cli); ("bcwf", run_bcwf); ("bfx", run_bfx); ("expr", run_expr); ("svec", run_svec); ("tape", run_tape); ("bfcycle", run_bfcycle); ("irbig", run_irbig) ]
 
 let () =
   (try
